@@ -61,7 +61,8 @@ Definition code_of_class (cls : string) : string :=
 
 Definition outcome_agree (o : outcome) (oo : ooutcome) : bool :=
   match o, oo with
-  | OResult kw, OOResult kw' => json_sameb true kw kw'
+  (* the observation lists the fields of the result object that are set: a JSON null in the reply is "not set" *)
+  | OResult kw, OOResult kw' => json_sameb true (remove_nones kw) (remove_nones kw')
   | ONone, OONone | OTimeout, OOTimeout | OCancelled, OOCancelled | OSendFail, OOSendFail => true
   | ORaise cls d x, OOExc cls' d' x' => String.eqb cls cls' && json_sameb false d d' && json_sameb false x x'
   | OInvalid codes, OOExc cls' _ _ => mem (code_of_class cls') (map code_name codes)
